@@ -696,7 +696,8 @@ fn run_script(cx: &mut Ctx, ops: &[Op], kind: &str, bufsize: usize, with_old: bo
             outputs.push(("new", b, w));
         }
         Err(p) => {
-            let cls = if p.contains("overflow") { "new_compressor_pointer_overflow" } else if p.contains("did not correspond") { "new_builder_stale_compressor_panic" } else { "panic_new_builder" };
+            let cls = if p.contains("overflow") { "new_compressor_pointer_overflow" } else if p.contains("did not correspond") { "new_builder_stale_compressor_panic" }
+                else if p.contains("valid last label") { "new_compressor_label_boundary_panic" } else { "panic_new_builder" };
             cx.verdict(false, cls, &tag, &p);
         }
     }
